@@ -245,6 +245,19 @@ def make_case(i, rng, tier):
 
 
 # ---- P1 -------------------------------------------------------------------------------------------
+def _ambient():
+    """process-wide settings a conversion could touch: the thread's decimal context, the warning filters' length, recursion limit"""
+    import decimal
+    import sys
+    c = decimal.getcontext()
+    return (c.prec, c.rounding, c.Emax, c.Emin, tuple(sorted(k.__name__ for k, v in c.traps.items() if v)), sys.getrecursionlimit())
+
+
+def _restore_ambient():
+    import decimal
+    decimal.setcontext(decimal.DefaultContext.copy())
+
+
 def has_mutable(v, d=0):
     if isinstance(v, (list, dict, set, bytearray)) or type(v).__name__ in ("deque", "MyList", "MyDict"):
         return True
@@ -278,10 +291,18 @@ def run_p1(case, ctx):
                 ctx.skip("one-shot input")
                 continue
             before = V.snapshot(x)
+            amb0 = _ambient()
             out = run(lambda: entry(x))
             ctx.count("parses")
             after = V.snapshot(x)
             sig = ("P1", shape, route, tuple(sorted(opts.items())), TS.value_class(x), out.kind)
+            amb1 = _ambient()
+            if amb0 != amb1:
+                _restore_ambient()
+                ctx.violation(f"C19/P1-ambient-state-changed/{route}/{TS.node_tag(spec)}",
+                              f"{route} {TS.describe(spec)[:160]} opts={opts} input={short(x, 80)}: the parse ({out.kind}) left process-wide state changed: {amb0} -> {amb1}",
+                              {"spec": TS.describe(spec), "route": route, "options": opts, "input": short(x, 200), "before": repr(amb0), "after": repr(amb1)}, sig=sig)
+                continue
             if before != after:
                 ctx.violation(f"C19/P1-input-mutated/{route}/{TS.node_tag(spec)}",
                               f"{route} {TS.describe(spec)[:160]} opts={opts}: input changed by the parse ({out.kind}): before {short(before, 120)} after {short(after, 120)}",
